@@ -142,7 +142,7 @@ class SP_IK_coherent(_SPObj):
     """SP.IK(top, bottom, protect=True) for arbitrary plate poses: lengths returned = published lengths = geometry;
     published state coherent (joints, lengths, poses, relative transform)"""
     prop = ('C09', 'C10')
-    tier = 'off'          # object-level contract: did not discharge within the time available; not run, not claimed
+    tier = 'quick'
     target = SPM + ':SP.IK'
     under_contract = (SPM + ':SP._IKHelper', SPM + ':SP._setPlatePos', FHP + ':SPIKinSpace')
     shape_bound = 'one fixed hexagonal geometry (rational joint coordinates); all plate poses'
@@ -164,7 +164,7 @@ class SP_IK_coherent(_SPObj):
 class SP_move_coherent(_SPObj):
     """SP.move(new base) keeps the relative plate pose and the state coherent"""
     prop = 'C10'
-    tier = 'off'          # object-level contract: did not discharge within the time available; not run, not claimed
+    tier = 'quick'
     target = SPM + ':SP.move'
     shape_bound = 'one fixed hexagonal geometry (rational joint coordinates); all base poses'
 
@@ -191,7 +191,7 @@ class SP_inverseJacobian(_SPObj):
     of the leg lengths with respect to the spatial twist of the top plate (dual-number execution of the IK kernel);
     the query leaves both plate poses and the published state unchanged"""
     prop = ('C11', 'C10')
-    tier = 'off'          # object-level contract: did not discharge within the time available; not run, not claimed
+    tier = 'quick'
     target = SPM + ':SP.inverseJacobian'
     shape_bound = 'one fixed hexagonal geometry (rational joint coordinates); all plate poses'
     timeout = 60.0
@@ -241,7 +241,7 @@ class SP_spin_tables(SPC):
     """spinCustom(angle): the plate-local joint tables used by the Newton forward kinematics (captured at construction)
     must describe the re-spun platform: _bottom_joints_init = _bottom_joints_local^T, likewise for the top"""
     prop = 'C09'
-    tier = 'off'          # object-level contract: did not discharge within the time available; not run, not claimed
+    tier = 'off'          # spinCustom runs validate/corrective actions (fsolve): not modelled; finding F20 not examined
     target = SPM + ':SP.spinCustom'
     shape_bound = 'one fixed hexagonal geometry (rational joint coordinates); spin angle in [0.1, 3]'
 
